@@ -133,7 +133,7 @@ THEMES = [
     ["const_chain", "usize_sizes", "structs", "nested_structs", "alias", "distinct", "comptime_struct",
      "struct_fns", "typed_user_globals", "global_readers", "value_alias", "global_array",
      "comptime_locals", "struct_arrays", "untyped_consts", "const_arrays", "alias_hops", "same_names",
-     "indirect_refs", "comptime_int"],
+     "indirect_refs", "comptime_int", "pointers"],
     # recursion and scheduling
     ["recursion", "mutual_recursion", "comptime_int", "const_chain", "local_comptime",
      "local_comptime_calls", "fn_value", "alias_recursion", "rec_lambdas", "weak_locals", "higher_order",
@@ -671,7 +671,7 @@ class _Gen:
         elif self.usize_consts and "const_chain" in self.f and r.random() < 0.6:
             c = r.choice(sorted(self.usize_consts))
             it.deps.add(c)
-            if "pointers" in self.f and r.random() < 0.35:
+            if "pointers" in self.f and r.random() < 0.5:
                 # the other constant is read through a pointer to it
                 val = self.usize_consts[c] + 1
                 it.render = lambda ref: "%s : usize : comptime { p := ^%s; p^ + 1 };" % (name, ref(c))
